@@ -53,6 +53,7 @@ func c04(r *core.Run) {
 	r.Rule("C04/R3", "each recipient gets its own percentage: POL amount ⊵ Param(PolRatio) ∧ ⋫ Param(ReferralCommission); referrer and fee-collector amounts ⊵ Param(ReferralCommission) ∧ ⋫ Param(PolRatio)")
 	r.Rule("C04/R4", "closed recipient set: every bank call of the unit is one of {debit from signer, new gauge, POL account, referrer named by msg.Referral, fee collector}")
 	r.Rule("C04/R5", "failure debits nothing: every bank error propagates to a failing return")
+	r.Rule("C04/R7", "success implies the money moved: every committing return of a plan purchase has debited the payer, created the gauge and written the plan record")
 	r.Rule("C04/R6", "referral gate: the referrer payout is on committing paths only behind a successful resolution of msg.Referral and behind Eq(resolved referral, signer)=false (directly or through a boolean flag set only there)")
 	hs, err := p.Handlers()
 	if err != nil {
@@ -196,6 +197,12 @@ func c04(r *core.Run) {
 			}
 		}
 		errorsPropagate(r, "C04/R5", h)
+		// ---- R7 success implies the money moved: debit and gauge funding on every committing path of the paying branch
+		if sp.key == "storage.MsgBuyStorage" {
+			successImplies(r, "C04/R7", h, "debit of the payer", core.OpFilter{Bank: func(b *core.BankOp) bool { return b.Method == "SendCoinsFromAccountToModule" }})
+			successImplies(r, "C04/R7", h, "creation of the provider gauge", storeWrites("storage", "PaymentGauge/value/"))
+			successImplies(r, "C04/R7", h, "write of the plan record", storeWrites("storage", "StoragePaymentInfo/value/"))
+		}
 		// ---- R6 referral gate (plan purchase only)
 		for _, s := range sites {
 			if s.class != "referrer" {
